@@ -19,6 +19,9 @@ func valJSON(v *variants.Variant) Ev {
 	e := Ev{"t": vtypeNames[v.Type()], "k": "none", "n": 0}
 	small := func(x int64) bool { return x >= -(1<<20) && x <= (1<<20) }
 	frac := func(f float64) {
+		if f == 0 {
+			f = 0 // negative zero is the same value as zero
+		}
 		e["s"] = strconv.FormatFloat(f, 'g', -1, 64)
 		if !math.IsNaN(f) && !math.IsInf(f, 0) && math.Abs(f) < (1<<20) && f*8 == math.Trunc(f*8) {
 			e["k"], e["n"] = "frac", int(f*8)
@@ -239,10 +242,15 @@ func execC06(seg []Ev) []Ev {
 			c06extraSeed = int64(toInt(v))
 		}
 		pool := valuePool(full) // fresh objects for every event: operators must not depend on earlier calls
+		wide := false
+		if w, ok := in["wide"]; ok && toBool(w) {
+			wide = true
+			pool = widePool()
+		}
 		op := toStr(in["op"])
 		mgr := toStr(in["mgr"])
 		m := c06mgr(mgr)
-		e := Ev{"op": op, "mgr": mgr, "full": full, "xseed": int(c06extraSeed)}
+		e := Ev{"op": op, "mgr": mgr, "full": full, "xseed": int(c06extraSeed), "wide": wide}
 		get := func(k string) *variants.Variant {
 			i := toInt(in[k])
 			e[k+"i"] = i
@@ -271,6 +279,9 @@ func execC06(seg []Ev) []Ev {
 			e["name"] = name
 			oc, r, det := opOutcome(func() (*variants.Variant, error) { return binCall(m, name, a, b) })
 			e["outcome"], e["r"] = oc, valJSON(r)
+			if h, ok := hostBin(name, a, b, mgr == "unsafe"); ok {
+				e["host"] = valJSON(h)
+			}
 			if det != "" {
 				e["detail"] = det
 			}
@@ -512,6 +523,18 @@ func genC06(g *Gen) {
 		c06extraSeed = g.Seed
 	}
 	n := len(valuePool(full))
+	nw := len(widePool())
+	for _, mgr := range []string{"unsafe", "safe"} {
+		for ai := 0; ai < nw; ai++ {
+			for bi := 0; bi < nw; bi++ {
+				for _, name := range binNames {
+					if name != "Pow" {
+						g.Run("host arithmetic on wide values (extreme magnitudes, rounding midpoints)", []Ev{{"op": "bin", "mgr": mgr, "name": name, "ai": ai, "bi": bi, "full": full, "wide": true, "xseed": int(c06extraSeed)}})
+					}
+				}
+			}
+		}
+	}
 	for _, mgr := range []string{"unsafe", "safe"} {
 		for ai := 0; ai < n; ai++ {
 			for _, un := range []string{"Not", "Negative"} {
